@@ -1,26 +1,36 @@
 #!/bin/bash
 # Development-time self-test: every seeded property-breaking change under seeded/<id>/ is applied to a scratch
 # copy of /repo (never to /repo itself) and the checks named in its meta.json must report a VIOLATION;
-# evidence/ and replays/ of /verif are not touched.  usage: ./selftest.sh [seed-id ...]
+# evidence/ and replays/ of /verif are not touched.
+# usage: ./selftest.sh [seed-id ...]        SELFTEST_JOBS=<n> seeds are processed side by side (default 2)
 cd "$(dirname "$0")"
 ids=${@:-$(ls seeded)}
+jobs=${SELFTEST_JOBS:-2}
 tmp=$(mktemp -d /var/tmp/rbverif-selftest.XXXXXX)
 trap 'rm -rf "$tmp"' EXIT
-fail=0
 results=seeded/RESULTS.txt
 [ $# -eq 0 ] && : > $results
-for id in $ids; do
-  [ -f seeded/$id/meta.json ] || continue
+
+one_seed() {
+  id=$1; tmp=$2
+  [ -f seeded/$id/meta.json ] || return 0
+  t=$tmp/$id; mkdir -p $t
   props=$(python3 -c "import json;print(' '.join(json.load(open('seeded/$id/meta.json'))['detected_by_checks']))")
-  rm -rf $tmp/repo; rsync -a --exclude /target --exclude .git /repo/ $tmp/repo/
-  if ! (cd $tmp/repo && patch -p1 -s < "$OLDPWD/seeded/$id/patch.diff"); then echo "SELFTEST $id: patch does not apply"; fail=1; continue; fi
+  rsync -a --exclude /target --exclude .git /repo/ $t/repo/
+  if ! (cd $t/repo && patch -p1 -s < "$OLDPWD/seeded/$id/patch.diff"); then echo "SELFTEST $id: patch does not apply"; rm -rf $t; return 0; fi
   for p in $props; do
-    RBVERIF_REPO=$tmp/repo RBVERIF_EVIDENCE_DIR=$tmp/ev RBVERIF_REPLAY_DIR=$tmp/replays RBVERIF_SCRATCH=$tmp/scratch ./check $p --tier quick > $tmp/out.log 2>&1; rc=$?
-    if [ $rc -eq 1 ] && grep -q "^VIOLATION property=$p" $tmp/out.log; then
-      line="SELFTEST $id: caught by $p: $(grep -A1 '^VIOLATION' $tmp/out.log | grep 'failed obligation' | head -2 | tr '\n' ' ')"; echo "$line"; echo "$line" >> $results
+    RBVERIF_REPO=$t/repo RBVERIF_EVIDENCE_DIR=$t/ev RBVERIF_REPLAY_DIR=$t/replays RBVERIF_SCRATCH=$t/scratch ./check $p --tier quick > $t/out.log 2>&1; rc=$?
+    if [ $rc -eq 1 ] && grep -q "^VIOLATION property=$p" $t/out.log; then
+      echo "SELFTEST $id: caught by $p: $(grep -A1 '^VIOLATION' $t/out.log | grep 'failed obligation' | head -2 | tr '\n' ' ')"
     else
-      line="SELFTEST $id: NOT caught by $p (exit $rc)"; echo "$line"; echo "$line" >> $results; fail=1
+      echo "SELFTEST $id: NOT caught by $p (exit $rc) $(grep '^UNDECIDED' $t/out.log | head -1 | sed 's/^UNDECIDED property=[A-Z0-9]* //' | cut -c1-160)"
     fi
   done
-done
-exit $fail
+  rm -rf $t
+}
+export -f one_seed
+
+printf '%s\n' $ids | xargs -P $jobs -I{} bash -c 'one_seed {} '"$tmp" | tee -a $results.tmp
+sort $results.tmp >> $results; rm -f $results.tmp
+grep -q "NOT caught\|does not apply" $results && exit 1
+exit 0
